@@ -39,6 +39,13 @@ def candidate_points(rng, polys, n_max):
         pts.append(('bbox_corner', (max(xs), max(ys))))
         pts.append(('bbox_edge', ((min(xs) + max(xs)) / 2, max(ys))))
         pts.append(('just_outside', (min(xs) - 0.125, min(ys))))
+        # the same place one whole turn east / west (a regional model does not contain it), and mirrored through the origin
+        r = rng.choice(rings)
+        a, b = r[0], r[len(r) // 2]
+        mid = ((a[0] + b[0]) / 2, (a[1] + b[1]) / 2)
+        pts.append(('one_turn_away', (mid[0] + 360.0, mid[1])))
+        pts.append(('one_turn_away', (mid[0] - 360.0, mid[1])))
+        pts.append(('mirrored', (-mid[0] + (0.0 if abs(mid[0]) > max(xs) - min(xs) + 1 else 777.0), -mid[1])))
     rng.shuffle(pts)
     # keep every class represented
     out, seen = [], {}
@@ -61,6 +68,9 @@ def run(ctx):
     n_pts = 40 if quick else 120
     fixed = [('cf1d', dict(ny=5, nx=6)), ('cf2d', dict(ny=4, nx=4, holes='interior', bounds=True)),
              ('shoc_standard', dict(nj=4, ni=5, holes='random')), ('ugrid', dict(w=4, h=3)), ('cf1d', dict(ny=10, nx=20)),
+             # single-cell datasets
+             ('cf1d', dict(ny=1, nx=1, bounds=True)), ('cf2d', dict(ny=1, nx=1, bounds=True, holes='none', invalid=False)),
+             ('shoc_standard', dict(nj=1, ni=1, holes='none', invalid=False)), ('ugrid', dict(w=1, h=1, invalid=False)),
              # cells without coordinates AND a self-intersecting cell in one dataset
              ('cf2d', dict(ny=3, nx=4, holes='edge', bounds=True, invalid=True)),
              ('cf2d', dict(ny=4, nx=3, holes='corner', bounds=True, invalid=True)),
